@@ -61,7 +61,7 @@ func init() {
 		ID:          "C04",
 		Level:       "fault_enumeration",
 		Technique:   "bounded exhaustive enumeration of scenario call trees (depth-bounded) x fork x join-point answer vectors (fault enumeration with a deviation bound) executed on the real EVM with a scripted Aspect runtime; post-state compared with a reference interpreter of the scenario AST",
-		Rule:        "scenario trees: frame = pre-effect {none, SSTORE, LOG} ; optional call kind {CALL, CALLCODE, DELEGATECALL, STATICCALL, CREATE, CREATE2} x value {0, 1, more than balance} x target {child frame, precompile, code-less account} ; post-effect ; terminator {STOP, RETURN, REVERT, INVALID, stack underflow, out of gas, SELFDESTRUCT}; nesting <= depth bound; forks {Byzantium, Istanbul, Berlin, London, Shanghai}; Aspects bound to every contract; at each Aspect execution the answer is drawn from {ok, out of gas, revert, other failure, provider failure, ok burning all gas} with at most k non-default answers. Oracle: storage of every contract, success flags and RETURNDATASIZE seen by callers, balances, nonces, code, self-destructs and logs equal the model's, in which a failed frame and its descendants contribute nothing and the caller's own effects stay. non-trivial = distinct (scenario, answers) in which at least one frame failed",
+		Rule:        "scenario trees: frame = pre-effect {none, SSTORE, LOG} ; optional call kind {CALL, CALLCODE, DELEGATECALL, STATICCALL, CREATE, CREATE2} x value {0, 1, more than balance} x target {child frame, succeeding / failing precompile, code-less / absent / existing empty account} ; post-effect ; terminator {STOP, RETURN, REVERT, INVALID, stack underflow, out of gas, SELFDESTRUCT}; nesting <= depth bound; forks {Byzantium, Istanbul, Berlin, London, Shanghai}; Aspects bound to every contract; at each Aspect execution the answer is drawn from {ok, out of gas, revert, other failure, provider failure, ok burning all gas} with at most k non-default answers. Oracle: storage of every contract, success flags and RETURNDATASIZE seen by callers, balances, nonces, code, self-destructs, logs and the set of accounts left after finalisation (touched empty accounts are deleted unless the touching frame failed) equal the model's, in which a failed frame and its descendants contribute nothing and the caller's own effects stay. non-trivial = distinct (scenario, answers) in which at least one frame failed",
 		Assumptions: []string{"the Aspect runtime is replaced by a scripted stub at run.Runner (djpm.runAspect is real)", "gas-tight calls are not part of this scenario language (gas exactness is C02's subject)"},
 		Bounds: func(t string) map[string]any {
 			o, b := c04Opts(t)
@@ -77,6 +77,16 @@ func init() {
 				ch := &scnCheck{ID: "C04", Judge: c04Judge, Nontrivial: anyFailed}
 				ch.runFamily(w, 2, scnFamily{qo, qb, nil})
 				ch.runFamily(w, 3, chainFamily("quick", []scn.Effect{scn.ENone, scn.ESstore}, func(o *scnOpts) { o.Gen.PreEffects = nil }))
+			}
+			{
+				// leaf calls: depth-2 frames that call a leaf target themselves (absent, empty, code-less account) before
+				// they stop, revert or fail - over a reduced alphabet, run first
+				lo := &scnOpts{Forks: []world.Fork{world.Byzantium, world.Shanghai}, Answers: failAlphabet, BoundAll: true}
+				lo.Gen = scn.GenOpts{MaxDepth: 2, LeafCalls: true, Effects: []scn.Effect{scn.ENone, scn.ESstore}, PreEffects: []scn.Effect{scn.ENone},
+					Terms: []scn.Term{scn.TStop, scn.TRevert, scn.TInvalid}, Kinds: []scn.Kind{scn.KCall, scn.KStaticCall, scn.KDelegateCall}, Values: []int{0, 1},
+					Targets: []scn.Target{scn.TgChild, scn.TgEmptyAcct, scn.TgAbsent, scn.TgCodeless}}
+				ch := &scnCheck{ID: "C04", Judge: c04Judge, Nontrivial: anyFailed}
+				ch.runFamily(w, 4, scnFamily{lo, 1, nil})
 			}
 			defer func() {
 				// depth-3 chains over the reduced alphabet
